@@ -47,6 +47,7 @@ type frame struct {
 	defers   []*ssa.Defer
 	freeVars []Val
 	curCallArgs []ssa.Value
+	curEnv   map[ssa.Value]Val
 	order    []nkey
 	succs    map[nkey][]nkey
 }
